@@ -372,6 +372,30 @@ func (sc *scenario) mkArg(o optSpecC) am.Arg {
 		return am.ConverterFunc(fs...)
 	case "genfail":
 		return am.ConverterGen(func(v am.Value) (*am.Func, error) { return nil, fmt.Errorf("generator failed") })
+	case "gen":
+		// a generator with a rule: fires on values of type o.Ty (and, unless o.Name is "*", of that name);
+		// o.Vid is its index, o.Sub its mode (ok: returns function o.Fids[0]; fail: reports an error; nil)
+		o := o
+		return am.ConverterGen(func(v am.Value) (*am.Func, error) {
+			res := "nil"
+			var f *am.Func
+			var err error
+			if tyID(v.Type) == o.Ty && (o.Name == "*" || v.Name == o.Name) {
+				switch o.Sub {
+				case "fail":
+					err, res = fmt.Errorf("generator failed"), "err"
+				case "nil":
+				default:
+					f, res = sc.Funcs[o.Fids[0]].fn, fmt.Sprint(o.Fids[0])
+				}
+			}
+			vn := fmt.Sprintf("O:%d:%s", tyID(v.Type), e2s(v.Subtype))
+			if v.Name != "" {
+				vn = fmt.Sprintf("V:%s:%d:%s", e2s(v.Name), tyID(v.Type), e2s(v.Subtype))
+			}
+			sc.events = append(sc.events, fmt.Sprintf("gi %d %s %s", o.Vid, vn, res))
+			return f, err
+		})
 	case "gennil":
 		return am.ConverterGen(func(v am.Value) (*am.Func, error) { return nil, nil })
 	case "namednil":
@@ -400,6 +424,12 @@ func (o optSpecC) line() string {
 		return fmt.Sprintf("opt named %s nil", e2s(o.Name))
 	case "genfail":
 		return "opt gen fail"
+	case "gen":
+		n := o.Name
+		if n != "*" {
+			n = e2s(n)
+		}
+		return fmt.Sprintf("opt gen rule %d ty=%d name=%s fid=%d mode=%s", o.Vid, o.Ty, n, o.Fids[0], o.Sub)
 	case "gennil":
 		return "opt gen nil"
 	case "conv", "convfunc":
@@ -417,6 +447,12 @@ func (sc *scenario) convOrder() []int {
 	order := []int{0}
 	for _, o := range sc.Opts {
 		if o.Kind == "conv" || o.Kind == "convfunc" {
+			order = append(order, o.Fids...)
+		}
+	}
+	// functions returned by generators have Go types of their own (genGens), so their position is immaterial
+	for _, o := range sc.Opts {
+		if o.Kind == "gen" {
 			order = append(order, o.Fids...)
 		}
 	}
